@@ -406,6 +406,12 @@ def origin_contract(d, ln, clause):
     return dict(kind='contract', file=os.path.basename(d['src']), line=ln, clause=clause)
 
 
+def rename_idents(text, rename):
+    for old, new in (rename or {}).items():
+        text = re.sub(r'(?<![A-Za-z0-9_.])%s(?![A-Za-z0-9_])' % re.escape(old), new, text)
+    return text
+
+
 def payload_text(d, tags_out, rename=None):
     """Join payload lines; return text and a per-line origin list (clause tracking)."""
     lines, origins = [], []
@@ -660,6 +666,7 @@ def annotate(repo, contracts, out, vacuity=False, demote=()):
                 # N5: a sub-expression the verifier cannot read is hoisted, text unchanged, into an external function
                 old, new, hname = unq(m.group(1)), unq(m.group(2)), m.group(3)
                 f = cur.fn(m.group(4).strip())
+                old, new = rename_idents(old, cur.last_rename), rename_idents(new, cur.last_rename)
                 lo, hi = cur.toks[f.fn_tok].pos, cur.toks[f.body_close].end
                 body = cur.src[lo:hi]
                 # match modulo whitespace
@@ -679,6 +686,7 @@ def annotate(repo, contracts, out, vacuity=False, demote=()):
                 cnt, old, new = int(m.group(1)), unq(m.group(2)), unq(m.group(3))
                 if m.group(4):
                     f = cur.fn(m.group(4).strip())
+                    old, new = rename_idents(old, cur.last_rename), rename_idents(new, cur.last_rename)
                     lo, hi = cur.toks[f.fn_tok].pos, cur.toks[f.body_close].end
                 else:
                     lo, hi = 0, len(cur.src)
